@@ -7,7 +7,11 @@ package main
 //   perm  : Lean permOfTags                vs schema.Parse'd Creatable/Updatable/Readable/IgnoreMigration
 //   sao   : Lean selectAndOmit             vs Statement.SelectAndOmitColumns
 //   stmt  : Lean write set per write path  vs the column lists of the real DryRun statement
-// The end-to-end oracle (cell-by-cell table diff, model-free) is in c10_e2e.go.
+//           (incl. WHERE key columns of updates and deletes for every key shape, ON CONFLICT target of upserts)
+// Schemas: genC10Schema (single integer key first) and genC10SchemaK (no key / string key / composite keys with and
+// without a prioritized member / key members anywhere, with permission tags, inside embedded structs).
+// The end-to-end oracles (cell-by-cell table diff, model-free) are in c10_e2e.go (write set, single-key tables) and
+// c10_keys.go (row targeting on tables whose rows share partial keys + the rowsel tie).
 
 import (
 	"encoding/json"
@@ -1014,6 +1018,8 @@ func init() {
 		} else if tier == "search" {
 			n = 300
 		}
+		t0 := time.Now()
+		defer func() { r.Note("c10 perm+sao: n=%d took %.1fs", n, time.Since(t0).Seconds()) }()
 		db := c10OpenDry()
 		var ops [][]interface{}
 		var reals []string
@@ -1024,12 +1030,16 @@ func init() {
 				db = c10OpenDry() // fresh schema cache
 			}
 			s := genC10Schema(rng, true)
+			if i%2 == 1 {
+				s = genC10SchemaK(rng, true) // every key shape, key members with permission tags, embedded structs
+			}
 			sch, _, err := c10Parse(db, s)
 			if err != nil {
 				r.H("c10.schema.parse-error", "1")
 				continue
 			}
 			r.H("c10.schema.fields", fmt.Sprint(len(s.Fields)))
+			r.H("c10.schema.key-shape", c10ShapeOf(sch))
 			for fi, f := range s.Fields {
 				pf := sch.Fields[fi]
 				if pf.Name != f.Name {
@@ -1120,6 +1130,8 @@ func init() {
 		} else if tier == "search" {
 			n = 400
 		}
+		t0 := time.Now()
+		defer func() { r.Note("c10 stmt: n=%d took %.1fs", n, time.Since(t0).Seconds()) }()
 		db := c10OpenDry()
 		var ops [][]interface{}
 		type pend struct {
